@@ -905,6 +905,7 @@ def _plane_designs(geo, rng):
     out.append((('Plane', P, m), 'cutting_generic'))
     out.append((('Plane', add(geo.center, scale(_far(rng), m)), m), 'outside_generic'))
     out.append((('Plane', v, geo.support_normal_at_vertex(v)), 'touching_vertex_only'))
+    out.append((('Plane', v, scale(-1, geo.support_normal_at_vertex(v))), 'touching_vertex_only_normal_towards_body'))
     # through a vertex and an interior point
     w = sub(P, v)
     out.append((('Plane', v, O._primitive(cross(w, _dir_not_parallel(rng, w)))), 'through_vertex_cutting'))
@@ -912,6 +913,7 @@ def _plane_designs(geo, rng):
     n = geo.normals[fi]
     if geo.solid:
         out.append((('Plane', e[0], geo.support_normal_at_edge(e)), 'touching_edge_only'))
+        out.append((('Plane', e[1], scale(-2, geo.support_normal_at_edge(e))), 'touching_edge_only_normal_towards_body'))
         out.append((('Plane', e[0], cross(ed, sub(P, e[0]))), 'containing_edge_cutting'))
         out.append((('Plane', geo.faces[fi][0], scale(rng.choice((1, -1, 2)), n)), 'containing_face'))
         out.append((('Plane', P, n), 'parallel_to_face_cutting'))
